@@ -2,6 +2,7 @@
 """C06 Ring perception / ring marks -- one-graph and mark-derivation clauses."""
 from ..r_protocol import run_protocol
 from ..r_rings import rule_one_graph, rule_ring_marks
+from ..r_hygiene import rule_hygiene as _rule_hygiene
 
 LEVEL = 'other'
 
@@ -12,3 +13,4 @@ def run(ck, repo):
     rule_ring_marks(ck, repo, 'C06.D2-ring-marks')
     # marks are refreshed and ring caches dropped after every topology write
     run_protocol(ck, repo, 'C06.D2-refreshed', only_dims={'LABELS', 'KEEP'})
+    _rule_hygiene(ck, repo, 'C06.H-dataflow-hygiene', 'C06')
